@@ -4,8 +4,12 @@ Static: vt/gen/c06_api.py regenerates coq/C06/Gen_api.v from the snapshot (attri
 names defined by the node classes); C06_api_closed / C06_cleaner_methods_exist re-checked by vm_compute.
 Proof: termination of fix_paragraphs, of the remove_breaking_returns loop (candidates computed by a model of the four
 navigation functions) and of fix_nesting (labelled trees, any forbidden/invisible table) with explicit measures.
+fix_nesting's repair step is also replayed on the HEAP model (copy / remove_child / replace_child cell by cell): no exception but
+the IndexError of middle_tree.children[0], and the document stays a proper tree, for any markings.
 Search: each pass called DIRECTLY (not through the catch-all) in the documented order on trees of the adversarial and
-the well-formed input space, under a time limit; exception or time-out = failing input; clean_all's error reports too."""
+the well-formed input space, under a time limit; exception or time-out = failing input; clean_all's error reports too.
+Families in both spaces: 2..25 structurally EQUAL offenders under one forbidden ancestor (fix_nesting must stay linear), every
+numeric attribute the current source reads by name x every number spelling (exhaustive sweep + random combinations)."""
 import json
 
 from vt import core
@@ -34,7 +38,15 @@ def check(run):
                 "nested/single-column tables, ...; trigger x css unit exhaustively: overflow:auto/position on div, span and table with the "
                 "length the pass reads in each of %d units) + grammar-based adversarial wikitext with mutations, whose style attributes "
                 "are drawn from a css grammar (every trigger with every number x unit / keyword / garbage of the length it makes the "
-                "cleaner read, %d length properties, %d keyword properties); space 2: well-formed documents. "
+                "cleaner read, %d length properties, %d keyword properties); 10%% of the documents: one element context (tables, nested/"
+                "single-column tables, lists, div/span/font/hr, gallery, ref, dl, stray table parts, image size modifiers) whose attribute "
+                "slots carry numeric attributes (colspan/rowspan 40%%, else one of the html numeric attributes or an attribute the current "
+                "source reads by name) with one of the number spellings (ints, floats, exponents that overflow, inf/nan spellings, hex/"
+                "octal/binary, underscores, Unicode digits, signs, blanks, units, garbage, digit strings around CPython's 4300-digit "
+                "limit); 5%%: 2..25 structurally equal (85%%) or distinct offenders under one forbidden ancestor for every expressible "
+                "pair of forbidden_parents; on top, exhaustively: every attribute / style property the source reads by name x every "
+                "number spelling on a small table / div; space 2: well-formed documents (2%% of the blocks: 2..25 equal captioned images "
+                "in a preformatted line or equal indented lines inside one paragraph). "
                 "Each of the 58 entries of cleaner_methods is called directly, in order, under a CPU-time limit. distinct = distinct "
                 "wikitext; non-trivial = at least one pass changed the tree" % (len(G.SEEDS), len(G.UNITS), len(G.LENGTH_PROPS), len(G.KEYWORD_PROPS)))
     run.trusted = c05.TRUSTED + ["vt/gen/c06_api.py (Python ast): which attribute reads count as obligations (Load/Del on non-module "
@@ -48,8 +60,12 @@ def check(run):
     run.assumptions = ["name-based attribute check: a name defined by ANY node class / mixin counts as defined for every receiver",
                        "C06_breaking_returns_terminates_real: is_block_node and 'display text is blank' are abstract; BreakingReturns are "
                        "assumed childless (a BreakingReturn with a block descendant makes the model loop spin: C06_cand_detached_refuted)",
-                       "C06_fix_nesting_terminates: 'loose' strictness only; labelled trees, deepcopy = fresh identities; the heap-level "
-                       "call sequence copy/remove_child/replace_child is not replayed cell by cell",
+                       "C06_fix_nesting_terminates: 'loose' strictness only; labelled trees, deepcopy = fresh identities.  The heap-level "
+                       "call sequence of one repair (copy / _filter_tree = remove_child of every marked node / children[0] / "
+                       "replace_child) IS replayed cell by cell on the heap model (C06/ModelNestingHeap.v) and proved to keep the "
+                       "document a proper tree for ANY markings and any number of repairs (C06_fix_nesting_repair_heap_WF, "
+                       "C06_fix_nesting_heap_preserves_WF); not proved: that the heap-level result is the labelled model's result "
+                       "up to renaming of the copies' identities (termination and word preservation are proved on labelled trees)",
                        "nesting deeper than 40 is outside the quantifier (C01's input space): RecursionError on deeper documents is not "
                        "reported here (C05 checks that the tree stays proper when that happens)",
                        "exceptions other than missing attributes are decided by the search only"]
